@@ -244,3 +244,8 @@ def shrink(c):
         yield dict(c, tier=s)
     for s in T.shrink_spec(c["other"]):
         yield dict(c, other=s)
+
+
+# living-object histories built from the step-wise cases above (harness/living.py)
+import living  # noqa: E402
+living.install(globals())
